@@ -155,6 +155,19 @@ class VT:
                 elif f == "D":
                     s.c = max(0, s.c - max(1, num))
                     s.pend = False
+                elif f == "B":          # cursor down: stops at the bottom row, never scrolls
+                    s.r = min(self.h - 1, s.r + max(1, num))
+                    s.pend = False
+                elif f == "C":          # cursor forward
+                    s.c = min(self.w - 1, s.c + max(1, num))
+                    s.pend = False
+                elif f == "E":          # cursor next line
+                    s.r = min(self.h - 1, s.r + max(1, num))
+                    s.c = 0
+                    s.pend = False
+                elif f == "G":          # cursor to column
+                    s.c = min(self.w - 1, max(1, num) - 1)
+                    s.pend = False
                 elif f == "H":
                     parts = p.split(";") if p else []
                     s.r = min(self.h - 1, (int(parts[0]) if parts and parts[0] else 1) - 1)
@@ -200,3 +213,54 @@ def expected_rows(view, w, h):
     lines = (view if view != "" else " ").split("\n")
     lines = lines[-h:] if h > 0 and len(lines) > h else lines
     return [truncate(l, w).rstrip(" ") for l in lines]
+
+
+def replay_history(case, outs):
+    """Search for a failing point of a renderer history whose real output uses sequences outside the Coq terminal's
+    alphabet (so that the Coq oracle could not be evaluated): the same statement, on this module's terminal.  Inline:
+    the rows ending at the cursor row hold the latest view, nothing below; alt screen: the first rows hold it, the rest
+    blank; after Stop the newline-terminated lines of the final view stand above the cursor row.  Returns None or
+    (op index, message).  Histories with prints or inline resizes are skipped (None)."""
+    w, h = case["w0"], case["h0"]
+    hist = ["".join(chr(b) for b in row).rstrip(" ") for row in case["history"]]
+    vt = VT(w, h, hist[len(hist) - case["used"]:] if case["used"] else None)
+    latest, alt = None, False
+    for k, (op, b) in enumerate(zip(case["ops"], outs)):
+        kind = op["op"]
+        if kind in ("print",):
+            return None
+        if kind == "resize":
+            if k == 0:
+                pass
+            elif alt:
+                w, h = op["w"], op["h"]
+                old = vt
+                vt = VT(w, h)
+                vt.in_alt, vt.main = True, old.main
+            else:
+                return None
+        if not vt.feed(bytes(b)):
+            return None
+        if kind == "write":
+            latest = bytes(op["s"]).decode("utf-8", "replace")
+        elif kind == "enteralt":
+            alt = True
+        elif kind == "exitalt":
+            alt = False
+        elif kind in ("flush", "stop") and latest is not None and b:
+            p = expected_rows(latest, w, h)
+            scr = vt.s
+            win = [scr.text(i) for i in range(h)]
+            if kind == "flush" and alt:
+                if win[:len(p)] != p or any(win[len(p):]):
+                    return k, "alt screen shows %r, the view is %r" % (win, p)
+            elif kind == "flush":
+                r = scr.r
+                if r + 1 < len(p) or win[r + 1 - len(p):r + 1] != p or any(win[r + 1:]):
+                    return k, "the rows ending at the cursor row %d show %r, the view is %r" % (r, win, p)
+            elif not alt:
+                r = scr.r
+                q = p[:-1]
+                if r < len(q) or win[r - len(q):r] != q or any(win[r:]):
+                    return k, "after Stop the rows above the cursor row %d show %r, the newline-terminated lines of the final view are %r" % (r, win, q)
+    return None
